@@ -1276,6 +1276,32 @@ def _sig_h10_close_delimited(case, params):
             and resp_without_length(case) and not rq.get("expect100"))
 
 
+def _effective_coding(case):
+    rq, rs = case.get("req") or {}, case.get("resp") or {}
+    comp = rs.get("compression")
+    if comp == "auto":
+        ae = None
+        for k, v in rq.get("headers", []):
+            if k.lower() == "accept-encoding":
+                ae = v
+        if ae is None and rq.get("skip_auto") and any(h.lower() == "accept-encoding" for h in rq["skip_auto"]):
+            return None
+        if ae is not None and "deflate" not in ae.lower() and "gzip" not in ae.lower():
+            return None
+        return "deflate"
+    return comp if comp not in (None, "identity") else None
+
+
+def _sig_bodiless_compression_flush(case, params):
+    """HEAD / 204 / 304 answered through the StreamWriter's compressor (StreamResponse, payload body, chunked or
+    file response with a non-identity coding): the compressor's flush bytes follow the head."""
+    rq, rs = case.get("req") or {}, case.get("resp") or {}
+    bodiless = rq.get("method", "").upper() == "HEAD" or rs.get("status", 200) in EMPTY_STATUS
+    through_writer = rs.get("kind") in ("stream", "payload", "file") or bool(rs.get("chunked"))
+    return (bodiless and through_writer and _effective_coding(case) is not None
+            and case.get("viol") in ("second-exception", "second-response", "second-hang", "reuse", "client-exception"))
+
+
 DESYNC = ("hang", "stall", "reuse", "second-response", "second-exception", "second-hang", "server-error-log",
           "keepalive-disagree", "not-quiescent")
 
@@ -1288,6 +1314,7 @@ def _sig_h10_expect(case, params):
 SIGNATURES = {
     "h10_keepalive_close_delimited_hang": _sig_h10_close_delimited,
     "h10_expect_continue": _sig_h10_expect,
+    "bodiless_compression_flush": _sig_bodiless_compression_flush,
 }
 
 
